@@ -469,6 +469,26 @@ class SimSelector:
         self.closed = True
         self.keys = []
 
+    # the rest of selectors.BaseSelector's surface (a refactoring may well use it)
+    def __enter__(self):
+        return self
+
+    def __exit__(self, *exc):
+        self.close()
+
+    def modify(self, fileobj, events, data=None):
+        self.unregister(fileobj)
+        return self.register(fileobj, events, data)
+
+    def get_key(self, fileobj):
+        for k in self.keys:
+            if k.fileobj is fileobj:
+                return k
+        raise KeyError(f"{fileobj!r} is not registered")
+
+    def get_map(self):
+        return {k.fd: k for k in self.keys}
+
 
 class FakeSelectors:
     EVENT_READ, EVENT_WRITE = 1, 2
@@ -478,6 +498,14 @@ class FakeSelectors:
 
     def DefaultSelector(self):
         return SimSelector(self._s)
+
+    def __getattr__(self, name):
+        # SelectSelector, PollSelector, EpollSelector, ...: all of them are the simulated one
+        if name.endswith("Selector"):
+            return self.DefaultSelector
+        import selectors as _real
+
+        return getattr(_real, name)
 
 
 class SimSocket:
